@@ -634,3 +634,99 @@ pub fn record(args: &Args) {
     w.finish();
     println!("{}", json!({"t": "recorded", "runs": runs, "events": n_events}));
 }
+
+/// C10 for the kernels: every (len, window) of the driver specification, every kernel, every
+/// min_periods, instrumented input and output on both output paths.  Only the memory-safety
+/// envelope is judged here (values are C01/C03/C04's business): no out-of-range access, every
+/// slot written exactly once before exposure, or a clean panic.
+pub fn kernel_safety(args: &Args) {
+    use crate::kern::*;
+    let cases = read_ndjson(args.req("in"));
+    let mut rep = Report::new(args.get("prop").unwrap_or("C10"), args.req("out"));
+    for v in &cases {
+        if get_str(v, "op") != "window" {
+            continue;
+        }
+        let case = Case::parse(v);
+        if case.form != "apply" && case.form != "apply2" {
+            continue;
+        }
+        rep.cases += 1;
+        if rep.cases % 40 == 1 {
+            rep.sample(json!({"op": "kernel-safety", "len": case.len, "len2": case.len2, "w": case.w}));
+        }
+        let (len, len2, w) = (case.len, case.len2, case.w);
+        // null patterns: none, alternating, leading block
+        let pats: Vec<Vec<i64>> = vec![
+            (0..len as i64).map(|i| i % 3).collect(),
+            (0..len as i64).map(|i| if i % 2 == 0 { NULL } else { i % 3 }).collect(),
+            (0..len as i64).map(|i| if i < 2 { NULL } else { 2 - i % 3 }).collect(),
+        ];
+        for xs in &pats {
+            for mp in [None, Some(0usize), Some(1), Some(w + 1)] {
+                let key = |f: &str| format!("{f}|len={len},len2={len2},w={w},mp={mp:?}|xs={xs:?}");
+                let mut judge = |f: &str, cell: &str, r: Result<usize, String>, rep: &mut Report| {
+                    rep.cells += 1;
+                    let faults = safety_faults(&take_log());
+                    if !faults.is_empty() {
+                        rep.mismatch(f, &format!("{f}|{}", case.site().split('|').nth(1).unwrap_or("")), &key(f), cell,
+                            &format!("memory-safety envelope broken: {}", faults.join("; ")), v);
+                    } else if let Err(m) = &r {
+                        if m.contains(SPY_OOB) {
+                            rep.mismatch(f, f, &key(f), cell, "out-of-bounds access", v);
+                        } else {
+                            rep.panics_as_data += 1;
+                            rep.ok(f, 0.0);
+                        }
+                    } else {
+                        rep.ok(f, 0.0);
+                    }
+                };
+                if case.form == "apply" {
+                    let sp = Spy::new(1, enc_vec::<f64>(xs));
+                    let plain: Vec<f64> = enc_vec(xs);
+                    for k in VALID_KERNELS {
+                        for to in [false, true] {
+                            clear_log();
+                            let r = run_valid::<f64, _, f64, SpyOut<f64>>(k, &sp, w, mp, to).map(|o| o.len());
+                            judge(valid_fn_name(k), if to { "Spy->SpyOut/to" } else { "Spy->SpyOut/ret" }, r, &mut rep);
+                            clear_log();
+                            let r = run_valid::<f64, _, f64, SpyOut<f64>>(k, &plain, w, mp, to).map(|o| o.len());
+                            judge(valid_fn_name(k), if to { "Vec->SpyOut/to" } else { "Vec->SpyOut/ret" }, r, &mut rep);
+                        }
+                    }
+                    if !has_null(xs) {
+                        for k in PLAIN_KERNELS {
+                            clear_log();
+                            let r = run_plain::<f64, _, f64, SpyOut<f64>>(k, &sp, w, mp, true).map(|o| o.len());
+                            judge(plain_fn_name(k), "Spy->SpyOut/to", r, &mut rep);
+                            clear_log();
+                            let r = run_plain::<f64, _, f64, SpyOut<f64>>(k, &plain, w, mp, false).map(|o| o.len());
+                            judge(plain_fn_name(k), "Vec->SpyOut/ret", r, &mut rep);
+                        }
+                    }
+                    for k in FD_KERNELS {
+                        clear_log();
+                        let r = run_vfdiff::<f64, _, f64, SpyOut<f64>>(fd_order(k).unwrap(), &sp, w, mp, true).map(|o| o.len());
+                        judge("ts_vfdiff", "Spy->SpyOut/to", r, &mut rep);
+                    }
+                } else {
+                    let ys: Vec<i64> = (0..len2 as i64).map(|i| (i * 2) % 3).collect();
+                    let (sa, sb) = (Spy::new(1, enc_vec::<f64>(xs)), Spy::new(2, enc_vec::<f64>(&ys)));
+                    let plain: Vec<f64> = enc_vec(xs);
+                    for k in PAIR_KERNELS {
+                        for to in [false, true] {
+                            clear_log();
+                            let r = run_pair::<f64, _, _, f64, SpyOut<f64>>(k, &sa, &sb, w, mp, to).map(|o| o.len());
+                            judge(valid_fn_name(k), if to { "Spy x2->SpyOut/to" } else { "Spy x2->SpyOut/ret" }, r, &mut rep);
+                            clear_log();
+                            let r = run_pair::<f64, _, _, f64, SpyOut<f64>>(k, &plain, &sb, w, mp, to).map(|o| o.len());
+                            judge(valid_fn_name(k), if to { "Vec+Spy->SpyOut/to" } else { "Vec+Spy->SpyOut/ret" }, r, &mut rep);
+                        }
+                    }
+                }
+            }
+        }
+    }
+    rep.finish();
+}
